@@ -11,13 +11,13 @@ PROPS_MODULE = "C06_Properties"
 THEOREMS = ["C06_upper", "C06_upper_closed", "C06_upper_concurrent", "C06_spec_conc", "C06_upper_skew",
             "C06_stale_clock_refuted", "C06_upper_closed_strict_refuted",
             "C06_lower_tokens", "C06_lower", "C06_fresh", "C06_rejects_rest", "C06_resize",
-            "C06_sync_by_name", "C06_sync_windows",
+            "C06_sync_by_name", "C06_sync_windows", "C06_request_kind_irrelevant",
             "C06_spec_closed", "C06_spec_open", "C06_spec_lower", "C06_closed_ok_iff", "C06_open_all_iff"]
 EVAL = "C06_Check.eval"
 CLAUSES = ["agree", "closed", "open", "lower", "status", "lookup"]
 RULE = ("virtual-clock traces: distinct (qps, burst, op list) in which at least one request is admitted and at least "
         "one is rejected (429) and the clock readings have at least two different gaps; dispatcher traces: the same "
-        "through the real dispatcher; multi-schema cases (dispatcher or bare upstreamLimiter): the same, and at "
+        "through the real dispatcher with requests of every kind (incl. long-running ones); multi-schema cases (dispatcher or bare upstreamLimiter): the same, and at "
         "least one re-sync of the spec that leaves the schema under test unchanged; real-time cases are never counted")
 TRUSTED_BASE = [
     "Coq 8.16.1 kernel + vm_compute (case files); no native_compute, no extraction",
@@ -202,6 +202,13 @@ def corpus():
                    [{"op": "sync", "spec": [sch("new", "mi", max=1), tb]}] + tries([NS + 5]) +                     # identical
                    [{"op": "sync", "spec": [sch("new", "mi", max=1), sch("tb", "tb", q=1, b=2)]}] + tries([NS + 6] * 3) +  # tb itself
                    [{"op": "sync", "spec": [sch("tb", "tb", q=1, b=2)]}] + tries([NS + 7, 3 * NS, 3 * NS])})
+    # every kind of request takes a token, also what the server calls long running (watch, log, exec, proxy)
+    for kinds in (["list"] + ["watch"] * 8, ["log"] * 6 + ["get"] * 3, ["exec", "proxy", "watch", "log"] * 3,
+                  ["get", "list", "create", "update", "delete", "watch", "log", "exec", "proxy"] * 2):
+        ops = tries([0] * len(kinds) + [NS, NS, 3 * NS])
+        for o, k in zip(ops, kinds + ["watch", "log", "exec"]):
+            o["rk"] = k
+        cs.append({"kind": "disp", "q": 1, "b": 3, "pat": "request-kinds", "spec": [sch("tb", "tb", q=1, b=3)], "ops": ops})
     cs.append({"kind": "disp", "q": 10, "b": 3, "pat": "disp", "spec": [sch("tb", "tb", q=10, b=3)],
                "ops": tries([0, 0, 0, 0, 100000000, 100000001, 300000000, 300000000, 300000000])})
     cs.append({"kind": "rt", "q": 5, "b": 20, "calls": 60})
@@ -360,17 +367,24 @@ def gen_multi(rng, kind):
                 labels.add("tb-changed")
             case["ops"].append({"op": "sync", "spec": new})
             cur = new
+    if kind == "disp":                                  # request-level: a mix of kinds, half of them long running
+        mode = rng.below(3)
+        for o in case["ops"]:
+            if o["op"] == "try":
+                o["rk"] = (rng.choice(KINDS) if mode == 0 else rng.choice(LONG) if mode == 1
+                           else rng.choice(LONG + ("list", "get")))
+        labels.add("kinds")
     case["pat"] = "+".join(sorted(labels)) or "no-sync"
     return case
 
 
 def generate(rng, tier, scale=1):
-    nt, nd, nu = (300, 6, 60) if tier == "quick" else (4000, 40, 800)
+    nt, nd, nu = (300, 16, 60) if tier == "quick" else (4000, 120, 800)
     nt, nd, nu = nt * scale, nd * scale, nu * scale
     cs = [gen_trace(rng, 120) for _ in range(nt)]
     for k in range(nd + nu):
         cs.append(gen_multi(rng, "disp" if k < nd else "ulim"))
-    for _ in range(nd):
+    for _ in range((6 if tier == "quick" else 40) * scale):
         cs.append(gen_conc(rng))
     return cs
 
@@ -384,6 +398,12 @@ def coq_op(o):
     if o["op"] == "try":
         return "(OTry %s)" % cZ(o["t"])
     return "(OResize %s %s)" % (cZ(o["q"]), cZ(o["b"]))
+
+
+RK = {"get": "KGet", "list": "KList", "create": "KCreate", "update": "KUpdate", "delete": "KDelete",
+      "watch": "KWatch", "log": "KLog", "exec": "KExec", "proxy": "KProxy"}
+KINDS = list(RK)
+LONG = ("watch", "log", "exec", "proxy")
 
 
 def coq_spec(spec):
@@ -411,7 +431,8 @@ def coq_case(case, obs):
             return "CBad"
         tr = []
         for o, x in zip(case["ops"], st):
-            op = ("(DTry %s %s %s)" % (cZ(o["t"]), cbool(x["reached"]), cZ(x["status"])) if o["op"] == "try"
+            op = ("(DTry %s %s %s %s)" % (RK[o.get("rk", "list")], cZ(o["t"]), cbool(x["reached"]), cZ(x["status"]))
+                  if o["op"] == "try"
                   else "(DSync %s)" % coq_spec(o["spec"]))
             tr.append("(%s, Build_lk %s %s %s)" % (op, cbool(x["lk"]["tb"]), cZ(x["lk"]["q"]), cZ(x["lk"]["b"])))
         return "(CDisp %s %s)" % (coq_spec(case["spec"]), clist(tr))
@@ -477,6 +498,12 @@ def stats(case, obs):
         labs = ["kind:" + k] + ["pat:" + p for p in case.get("pat", "").split("+")]
         labs += ["schemas=%d" % len(case["spec"])]
         labs += ["decision:admit" if r else "decision:429" for o, r in zip(case["ops"], res) if o["op"] == "try"]
+        if k == "disp":
+            for o, x in zip(case["ops"], obs.get("steps", [])):
+                if o["op"] == "try":
+                    labs.append("req:%s:%s" % (o.get("rk", "list"), "admit" if x["reached"] else "429"))
+                    if x.get("longrunning"):
+                        labs.append("req:long-running")
         labs += ["lookup:token-bucket" if x["lk"]["tb"] else "lookup:OTHER-LIMITER" for x in obs.get("steps", [])]
         return labs
     if k not in ("trace", "disp") or "panic" in obs:
